@@ -20,7 +20,7 @@ def sh(cmd, cwd=None, env=None, timeout=3600):
 def main():
     src, sid, prop = sys.argv[1], sys.argv[2], sys.argv[3]
     caught_by = sys.argv[4:]
-    W = "/tmp/confirm"
+    W = os.environ.get("CONFIRM_DIR", "/tmp/confirm")
     repo = f"{W}/repo"
     env = dict(os.environ, CARGO_TARGET_DIR=f"{W}/target", CARGO_NET_OFFLINE="true")
     os.makedirs(W, exist_ok=True)
